@@ -134,6 +134,12 @@ var c01Configs = []struct {
 }{{true, false, false}, {false, false, true}, {true, true, true}, {false, true, false}}
 
 func c01NewEnv(t *testing.T, cfg int, rng *kit.Rand) *c01Env {
+	return c01NewEnvFormat(t, cfg, rng, 0)
+}
+
+// c01NewEnvFormat: initVer != 0 initialises the store the way a release whose current record format was
+// initVer did (in-package seam currentAESGCMVersionByte, set before Initialize and left in place).
+func c01NewEnvFormat(t *testing.T, cfg int, rng *kit.Rand, initVer byte) *c01Env {
 	c := c01Configs[cfg%len(c01Configs)]
 	e := &c01Env{cfg: cfg, tx: c.tx, nonces: map[string]string{}, model: map[string][]byte{}}
 	e.id = fmt.Sprintf("cfg%d(tx=%v,ns=%v,sealkey=%v)", cfg, c.tx, c.ns, c.seal)
@@ -161,6 +167,9 @@ func c01NewEnv(t *testing.T, cfg int, rng *kit.Rand) *c01Env {
 		t.Fatalf("verif: unknown barrier type %T", e.b)
 	}
 	e.defVer = e.aes.currentAESGCMVersionByte
+	if initVer != 0 {
+		e.aes.currentAESGCMVersionByte = initVer
+	}
 	root, err := e.b.GenerateKey()
 	if err != nil {
 		t.Fatal(err)
@@ -511,6 +520,8 @@ type c01Rec struct {
 	Term   uint32
 	How    string
 	Stored []byte
+	// VerClass, if set, is the violation class for "the record carries another format version than expected"
+	VerClass string
 }
 
 func (rec *c01Rec) wit(e *c01Env) map[string]any {
@@ -542,7 +553,11 @@ func (e *c01Env) checkShape(r *kit.Result, caseID string, rec *c01Rec, kr *c01Ke
 		return
 	}
 	if st[4] != rec.Ver {
-		r.Violate("C01-shape-version", caseID, fmt.Sprintf("new write carries format version %d, expected %d", st[4], rec.Ver), w)
+		cl := "C01-shape-version"
+		if rec.VerClass != "" {
+			cl = rec.VerClass
+		}
+		r.Violate(cl, caseID, fmt.Sprintf("new write carries format version %d, expected %d", st[4], rec.Ver), w)
 	}
 	if len(st) != c01Overhead+len(rec.Val) {
 		r.Violate("C01-shape-length", caseID, fmt.Sprintf("stored record has %d bytes for a %d byte value (expected %d)", len(st), len(rec.Val), c01Overhead+len(rec.Val)), w)
@@ -1557,5 +1572,418 @@ func (e *c01Env) tamperMeta(t *testing.T, r *kit.Result, caseID string, rng *kit
 	e.plant(rpath, rorig)
 	if err := e.b.ReloadRootKey(c01Ctx); err != nil {
 		t.Fatalf("verif: live barrier cannot reload the restored root key: %v", err)
+	}
+}
+
+// ---------------------------------------------------------------- legacy-initialised store re-opened by a current instance
+
+const (
+	// c01CurrentVer is the current record format of the property text (additional data = storage key).
+	c01CurrentVer = 2
+	// c01LegacyFormatClass: a record written by a barrier instance with default settings (the harness did not touch the
+	// format seam of that instance) carries the legacy format byte.
+	c01LegacyFormatClass = "C01-new-record-written-in-legacy-format"
+)
+
+var c01LegacyVariants = []string{
+	"initialised-under-v1",
+	"initialised-under-v1-and-rotated-under-v1",
+	"initialised-under-v2-keyring-last-persisted-under-v1",
+	"initialised-under-v1-root-key-rotated-under-v1",
+}
+
+// reopen seals the instance in use and opens the same store with a fresh instance with default settings.
+func (e *c01Env) reopen(t *testing.T) error {
+	if e.b != nil && !e.b.Sealed() {
+		if err := e.b.Seal(); err != nil {
+			t.Fatalf("verif: seal: %v", err)
+		}
+	}
+	nb := NewAESGCMBarrier(e.phys, e.ns)
+	switch x := nb.(type) {
+	case *TransactionalAESGCMBarrier:
+		e.b, e.aes = nb, x.AESGCMBarrier
+	case *AESGCMBarrier:
+		e.b, e.aes = nb, x
+	default:
+		t.Fatalf("verif: unknown barrier type %T", nb)
+	}
+	return nb.Unseal(c01Ctx, e.root)
+}
+
+// transplant moves rec (bytes, then the whole entry) to every target key and judges every read front door.
+// allowValue: rec is a legacy v1 record (relocatable by design).
+func (e *c01Env) transplant(r *kit.Result, caseID, stage string, rec *c01Rec, targets []string, allowValue bool) {
+	w := rec.wit(e)
+	w["stage"] = stage
+	for _, tg := range targets {
+		if tg == rec.Key || tg == "" || strings.HasSuffix(tg, "/") {
+			continue
+		}
+		saved := e.raw(tg)
+		e.plant(tg, rec.Stored)
+		mw := map[string]any{"target": tg}
+		for k, v := range w {
+			mw[k] = v
+		}
+		desc := fmt.Sprintf("%s: transplant record from %q to %q", stage, rec.Key, tg)
+		for _, rd := range e.readers(tg) {
+			c01Judge(r, caseID, desc, rd(), rec.Val, allowValue, nil, mw)
+		}
+		c01Judge(r, caseID, desc, e.decryptAPI(tg, rec.Stored), rec.Val, allowValue, nil, mw)
+		if saved != nil {
+			e.plant(tg, saved)
+		} else {
+			e.unplant(tg)
+		}
+		r.Count("reopen_transplants_bytes", 1)
+		e.probe.Alias(tg, rec.Key)
+		desc = fmt.Sprintf("%s: backend serves the entry of %q (with its entry key) for a read of %q", stage, rec.Key, tg)
+		for _, rd := range e.readers(tg) {
+			c01Judge(r, caseID, desc, rd(), rec.Val, allowValue, nil, mw)
+		}
+		e.probe.Unalias(tg)
+		r.Count("reopen_transplants_entry_level", 1)
+		if allowValue {
+			r.Count("reopen_transplants_of_legacy_records", 1)
+		} else {
+			r.Count("reopen_transplants_of_new_records", 1)
+		}
+	}
+}
+
+func c01LegacyReopenCase(t *testing.T, r *kit.Result, caseID string, n int, rng *kit.Rand) {
+	variant := (n / len(c01Configs)) % len(c01LegacyVariants)
+	vname := c01LegacyVariants[variant]
+	initVer := byte(1)
+	if variant == 2 {
+		initVer = 0
+	}
+	e := c01NewEnvFormat(t, n, rng, initVer)
+	e.id += " legacy-store=" + vname
+	wenv := map[string]any{"env": e.id}
+	idx := 0
+	var legacy, fresh []*c01Rec
+	// write puts one value through one front door and checks the record it left (O1).
+	write := func(stage, how, key string, ver byte, kr *c01Keyring, class string) *c01Rec {
+		shape, val := c01GenVal(rng, rng.Intn(14), 8<<10)
+		if key == "" {
+			key = c01GenKey(rng, idx)
+		}
+		idx++
+		how, err := e.put(how, key, val)
+		if err != nil {
+			t.Fatalf("verif: put %s %q: %v", how, key, err)
+		}
+		e.model[key] = val
+		rec := &c01Rec{Idx: idx, Key: key, Val: val, Shape: shape, Ver: ver, Term: e.expTerm, How: how, Stored: e.raw(key), VerClass: class}
+		var others []string
+		for _, o := range append(append([]*c01Rec{}, legacy...), fresh...) {
+			if len(others) < 4 && o.Key != key && rng.Chance(1, 2) {
+				others = append(others, o.Key)
+			}
+		}
+		e.checkShape(r, caseID, rec, kr, others)
+		r.Nontrivial(fmt.Sprintf("%d|%d|%s|%s|%d", e.cfg%len(c01Configs), variant, stage, how, ver))
+		return rec
+	}
+
+	// ---- phase 1: the store as a release with the legacy record format left it (format seam = 1)
+	kr := e.checkMeta(r, caseID, "legacy-initialised")
+	if kr == nil {
+		return
+	}
+	nLegacy := 6 + rng.Intn(4)
+	for i := 0; i < nLegacy; i++ {
+		switch {
+		case variant == 1 && (i == 2 || i == 4):
+			if _, err := e.b.Rotate(c01Ctx); err != nil {
+				t.Fatalf("verif: rotate: %v", err)
+			}
+			e.expTerm++
+			if i == 4 {
+				if err := e.b.CreateUpgrade(c01Ctx, e.expTerm); err != nil {
+					t.Fatalf("verif: create upgrade: %v", err)
+				}
+			}
+		case variant == 2 && i == 3:
+			// from here on the legacy format is current: the keyring is persisted in it
+			e.aes.currentAESGCMVersionByte = 1
+			if _, err := e.b.Rotate(c01Ctx); err != nil {
+				t.Fatalf("verif: rotate: %v", err)
+			}
+			e.expTerm++
+		case variant == 3 && i == 3:
+			nk, _ := e.b.GenerateKey()
+			if err := e.b.RotateRootKey(c01Ctx, nk); err != nil {
+				t.Fatalf("verif: rotate root key: %v", err)
+			}
+			e.root = nk
+		}
+		if kr = e.checkMeta(r, caseID, "legacy-phase"); kr == nil {
+			return
+		}
+		rec := write("legacy-phase", c01Hows[i%len(c01Hows)], "", e.aes.currentAESGCMVersionByte, kr, "")
+		if rec.Ver == 1 {
+			legacy = append(legacy, rec)
+		} else {
+			fresh = append(fresh, rec) // variant 2: written under the current format before the downgrade
+		}
+	}
+	if err := e.b.Seal(); err != nil {
+		t.Fatalf("verif: seal: %v", err)
+	}
+	if krec := e.raw(e.meta + KeyringPath); len(krec) < c01Overhead || krec[4] != 1 {
+		r.Inconc("%s: the format seam did not leave a version-1 keyring record (%s); the legacy store cannot be built", caseID, c01Hex(krec, 8))
+		return
+	}
+	r.Count("legacy_stores_built_keyring_record_v1", 1)
+	r.Count("legacy_stores_"+vname, 1)
+
+	// ---- phase 2: instances with default settings only; the harness does not touch the format seam any more
+	if err := e.reopen(t); err != nil {
+		r.Violate("C01-keyring-record", caseID, "an instance with default settings cannot unseal the legacy-initialised store: "+err.Error(), wenv)
+		return
+	}
+	r.Count("legacy_stores_reopened_by_default_instance", 1)
+	persisted := false // has an instance with default settings persisted the keyring since the re-open?
+	round := func(stage string) bool {
+		if kr = e.checkMeta(r, caseID, stage); kr == nil {
+			return false
+		}
+		r.Count("reopen_stages", 1)
+		r.Count("reopen_stage_"+stage, 1)
+		ws := map[string]any{"env": e.id, "stage": stage}
+		krec, rrec := e.raw(e.meta+KeyringPath), e.raw(e.meta+RootKeyPath)
+		if persisted {
+			// keyring + root-key records were written by a default instance: current format, bound to their paths
+			for _, m := range []struct {
+				name string
+				rec  []byte
+			}{{"keyring", krec}, {"root-key", rrec}} {
+				r.Count("reopen_meta_records_checked_after_persist", 1)
+				if len(m.rec) >= c01Overhead && m.rec[4] != c01CurrentVer {
+					ws["stored"] = c01Hex(m.rec, 24)
+					r.Violate(c01LegacyFormatClass, caseID, fmt.Sprintf("%s: the %s record persisted by an instance with default settings carries format version %d, the current format is %d", stage, m.name, m.rec[4], c01CurrentVer), ws)
+				}
+			}
+		} else if krec[4] == 1 {
+			r.Count("reopen_rounds_with_keyring_record_still_v1_at_rest", 1)
+		}
+		// records of the legacy phase stay readable
+		for _, o := range legacy {
+			if !bytes.Equal(e.raw(o.Key), o.Stored) {
+				continue // overwritten since
+			}
+			for _, rd := range e.readers(o.Key) {
+				x := rd()
+				r.Eval(1)
+				r.Count("reopen_legacy_record_reads", 1)
+				if x.Panic != nil || x.Err != nil || !x.Found || !bytes.Equal(x.Val, o.Val) {
+					ww := o.wit(e)
+					ww["stage"], ww["path"], ww["outcome"] = stage, x.Path, c01Outcome(x)
+					r.Violate("C01-roundtrip", caseID, stage+": a record written under the legacy format does not read back after the store was re-opened", ww)
+				}
+			}
+		}
+		// new records through every write front door, plus an overwrite of a legacy record
+		var now []*c01Rec
+		for _, how := range c01Hows {
+			r.Eval(1)
+			now = append(now, write(stage, how, "", c01CurrentVer, kr, c01LegacyFormatClass))
+		}
+		if len(legacy) > 0 {
+			o := kit.Pick(rng, legacy)
+			now = append(now, write(stage, kit.Pick(rng, c01Hows), o.Key, c01CurrentVer, kr, c01LegacyFormatClass))
+			r.Count("reopen_legacy_records_overwritten", 1)
+		}
+		r.Count("reopen_new_records", len(now))
+		if e.expTerm > 1 {
+			r.Count("reopen_new_records_after_rotation", len(now))
+		}
+		fresh = append(fresh, now...)
+		// every new record: moved to other new records, to legacy records, to fresh look-alike keys; a version
+		// byte rewritten to the legacy one
+		for _, rec := range now {
+			var targets []string
+			for k := 0; k < 3; k++ {
+				targets = append(targets, kit.Pick(rng, fresh).Key)
+			}
+			for k := 0; k < 2 && len(legacy) > 0; k++ {
+				targets = append(targets, kit.Pick(rng, legacy).Key)
+			}
+			p1, rest1 := c01Split(rec.Key, 1)
+			for _, fk := range []string{rec.Key + "x", rec.Key + "/x", "z" + rec.Key, rest1, p1 + p1 + rest1, e.meta + rec.Key} {
+				if _, live := e.model[fk]; !live {
+					targets = append(targets, fk)
+				}
+			}
+			e.transplant(r, caseID, stage, rec, targets, false)
+			if len(rec.Stored) >= c01Overhead {
+				img := append([]byte(nil), rec.Stored...)
+				img[4] = 1
+				if !bytes.Equal(img, rec.Stored) {
+					e.plant(rec.Key, img)
+					mw := rec.wit(e)
+					mw["stage"] = stage
+					for _, rd := range e.readers(rec.Key) {
+						c01Judge(r, caseID, stage+": rewrite version 2 -> 1", rd(), rec.Val, false, nil, mw)
+					}
+					e.plant(rec.Key, rec.Stored)
+					r.Count("reopen_version_rewrites", 1)
+				}
+			}
+		}
+		// legacy records moved onto new records' keys: authenticated but relocatable (value or error)
+		for k := 0; k < 2 && len(legacy) > 0; k++ {
+			o := kit.Pick(rng, legacy)
+			if bytes.Equal(e.raw(o.Key), o.Stored) {
+				e.transplant(r, caseID, stage, o, []string{kit.Pick(rng, now).Key, o.Key + "x"}, true)
+			}
+		}
+		return r.NViolations() <= 40
+	}
+
+	if !round("reopened") {
+		return
+	}
+	reseal := func() bool {
+		if err := e.b.Seal(); err != nil {
+			t.Fatalf("verif: seal: %v", err)
+		}
+		if err := e.b.Unseal(c01Ctx, e.root); err != nil {
+			r.Violate("C01-keyring-record", caseID, "barrier does not unseal from its persisted keyring with the current root key: "+err.Error(), wenv)
+			return false
+		}
+		return true
+	}
+	freshInstance := func() bool {
+		if err := e.reopen(t); err != nil {
+			r.Violate("C01-keyring-record", caseID, "a further instance with default settings cannot unseal the store: "+err.Error(), wenv)
+			return false
+		}
+		return true
+	}
+	if rng.Chance(1, 2) {
+		if !reseal() || !round("resealed-before-any-keyring-persist") {
+			return
+		}
+	}
+	if rng.Chance(1, 2) {
+		if !freshInstance() || !round("second-fresh-instance-before-any-keyring-persist") {
+			return
+		}
+	}
+	stages := []string{"rotated", "root-key-rotated", "resealed", "fresh-instance", "keyring-reloaded", "rotated-with-upgrade"}
+	rng.Shuffle(len(stages), func(a, b int) { stages[a], stages[b] = stages[b], stages[a] })
+	for _, stage := range stages {
+		switch stage {
+		case "rotated", "rotated-with-upgrade":
+			nt, err := e.b.Rotate(c01Ctx)
+			if err != nil {
+				t.Fatalf("verif: rotate: %v", err)
+			}
+			e.expTerm++
+			if nt != e.expTerm {
+				r.Violate("C01-shape-term", caseID, fmt.Sprintf("Rotate returned term %d, expected %d", nt, e.expTerm), wenv)
+			}
+			persisted = true
+			if stage == "rotated-with-upgrade" {
+				if err := e.b.CreateUpgrade(c01Ctx, e.expTerm); err != nil {
+					t.Fatalf("verif: create upgrade: %v", err)
+				}
+				ukey := fmt.Sprintf("%s%d", e.meta+KeyringUpgradePrefix, e.expTerm-1)
+				urec := e.raw(ukey)
+				r.Count("reopen_upgrade_records_checked", 1)
+				switch {
+				case len(urec) < c01Overhead:
+					r.Violate("C01-upgrade-record", caseID, "CreateUpgrade left no well-formed record under "+ukey, wenv)
+				case urec[4] != c01CurrentVer:
+					r.Violate(c01LegacyFormatClass, caseID, fmt.Sprintf("%s: the upgrade record written by an instance with default settings carries format version %d, the current format is %d", stage, urec[4], c01CurrentVer),
+						map[string]any{"env": e.id, "key": ukey, "stored": c01Hex(urec, 24)})
+				}
+			}
+		case "root-key-rotated":
+			nk, _ := e.b.GenerateKey()
+			if err := e.b.RotateRootKey(c01Ctx, nk); err != nil {
+				t.Fatalf("verif: rotate root key: %v", err)
+			}
+			e.root = nk
+			persisted = true
+		case "resealed":
+			if !reseal() {
+				return
+			}
+		case "fresh-instance":
+			if !freshInstance() {
+				return
+			}
+		case "keyring-reloaded":
+			if err := e.b.ReloadRootKey(c01Ctx); err != nil {
+				r.Violate("C01-rootkey-record", caseID, "the live barrier cannot reload the root-key record: "+err.Error(), wenv)
+				return
+			}
+			if err := e.b.ReloadKeyring(c01Ctx); err != nil {
+				r.Violate("C01-keyring-record", caseID, "the live barrier cannot reload the keyring record: "+err.Error(), wenv)
+				return
+			}
+		}
+		if !round(stage) {
+			return
+		}
+	}
+	if kr = e.checkMeta(r, caseID, "end"); kr != nil {
+		e.audit(r, caseID, kr)
+	}
+	if len(r.Samples) < 4 {
+		r.Sample(map[string]any{"case": caseID, "env": e.id, "legacy_records": len(legacy), "records_written_after_reopen": len(fresh), "final_term": e.expTerm, "stages": stages})
+	}
+	r.Count("legacy_reopen_histories", 1)
+}
+
+func TestVerif_C01_LegacyStoreReopen(t *testing.T) {
+	seed := kit.Seed(1)
+	r := kit.NewResult(t, "c01-legacy-reopen", seed, "a store initialised and populated while the legacy record format (version 1, no additional data) was current (in-package format seam; 4 ways to get there: initialised under v1 / + rotated under v1 / initialised under v2 but keyring last persisted under v1 / + root key rotated under v1), on a transactional / plain store, root / namespace barrier, with / without seal-key record, is sealed and re-opened by a fresh barrier instance with default settings whose format seam the harness never touches. Directly after the re-open, after seal+unseal and a second fresh instance before any keyring persist, and then after Rotate, RotateRootKey, seal+unseal, a further fresh instance, ReloadKeyring/ReloadRootKey and Rotate+CreateUpgrade in seeded order: one value through each of the 7 write front doors plus an overwrite of a legacy record; every record must carry format version 2 and the active term and open (crypto/aes + cipher.NewGCM, keyring recovered from the store) only with its storage key as additional data; keyring, root-key and upgrade records persisted by the default instance must be version 2; every such record moved (bytes and whole entry) to other new records, legacy records and fresh look-alike keys, or re-headed as version 1, must fail to read through barrier / view / sub-view / transactions / Decrypt. Legacy records must keep reading back; moved legacy records may return their value (relocatable by design). distinct = (config, legacy variant, stage, write front door, version)")
+	defer r.Write(t)
+	nEnv := kit.N(16, 192)
+	mine := 0
+	for n := 0; n < nEnv; n++ {
+		if !c01Mine(70000 + n) {
+			continue
+		}
+		caseID := fmt.Sprintf("legacy-reopen:%d", n)
+		if !kit.WantCase(caseID) {
+			continue
+		}
+		mine++
+		c01LegacyReopenCase(t, r, caseID, n, kit.NewRand(seed, uint64(70000+n)))
+		if r.NViolations() > 40 {
+			return
+		}
+	}
+	m := int64(mine)
+	r.Require("legacy_stores_built_keyring_record_v1", m)
+	r.Require("legacy_stores_reopened_by_default_instance", m)
+	r.Require("legacy_reopen_histories", m)
+	r.Require("reopen_stage_reopened", m)
+	r.Require("reopen_rounds_with_keyring_record_still_v1_at_rest", m)
+	r.Require("reopen_stage_rotated", m)
+	r.Require("reopen_stage_resealed", m)
+	r.Require("reopen_stage_fresh-instance", m)
+	r.Require("reopen_stage_keyring-reloaded", m)
+	r.Require("reopen_stage_root-key-rotated", m)
+	r.Require("reopen_new_records", 50*m)
+	r.Require("reopen_new_records_after_rotation", 8*m)
+	r.Require("reopen_meta_records_checked_after_persist", 4*m)
+	r.Require("reopen_upgrade_records_checked", m)
+	r.Require("reopen_transplants_of_new_records", 300*m)
+	r.Require("reopen_transplants_of_legacy_records", 10*m)
+	r.Require("reopen_legacy_record_reads", 50*m)
+	r.Require("reopen_legacy_records_overwritten", 5*m)
+	r.Require("reopen_version_rewrites", 40*m)
+	if nEnv >= 16 && mine >= 8 {
+		for _, how := range c01Hows {
+			r.Require("records_how_"+how, 4)
+		}
 	}
 }
